@@ -49,6 +49,21 @@ def constants():
     txt += f"def SIGOPS_CHECKSIG : List Nat := {sorted(sig_ops._CHECKSIG)}\n"
     txt += f"def SIGOPS_CHECKMULTISIG : List Nat := {sorted(sig_ops._CHECKMULTISIG)}\n"
     txt += f"def SIGOPS_MULTISIG_COST : Nat := {sig_ops.MAX_PUBKEYS_PER_MULTISIG}\n"
+    # what tx_builder offers: the funding theorems are about build_psbt, which spends every input it is given (the
+    # module states coin selection is not here); a further public name -- a selection strategy, say -- changes this
+    # list and breaks `funding_entry_points`, so it cannot arrive unmodelled
+    import btclib.tx_builder as tx_builder
+    import inspect
+    public = sorted(n for n, o in vars(tx_builder).items()
+                    if not n.startswith("_") and (inspect.isfunction(o) or inspect.isclass(o))
+                    and getattr(o, "__module__", None) == tx_builder.__name__)
+    if sorted(tx_builder.__all__) != public:
+        raise ValueError(f"tx_builder.__all__ {sorted(tx_builder.__all__)} is not its public definitions {public}")
+    txt += "/-- the public functions and classes `btclib.tx_builder` defines (= its `__all__`) -/\n"
+    txt += "def TX_BUILDER_PUBLIC : List String := [" + ", ".join(f'"{n}"' for n in public) + "]\n"
+    txt += "/-- the parameters of `build_psbt`, in order -/\n"
+    txt += "def BUILD_PSBT_PARAMS : List String := [" + ", ".join(
+        f'"{n}"' for n in inspect.signature(tx_builder.build_psbt).parameters) + "]\n"
     return txt + txt_pks
 
 
@@ -174,6 +189,56 @@ class _Sized:
         return self.total if include_witness else self.stripped
 
 
+class _Item:
+    def __init__(self, size, wsize=0):
+        self._s, self.script_witness = size, types.SimpleNamespace(_serialized_size=lambda: wsize)
+
+    def _serialized_size(self, include_witness=None):
+        return self._s
+
+
+def _spread(total, n, wtotal=0):
+    """n items whose sizes sum to total (the source sums over the items; the translation takes the sum)"""
+    if n == 0:
+        return []
+    return [_Item(total, wtotal)] + [_Item(0) for _ in range(min(n, 4) - 1)]
+
+
+class _FakeBlock:
+    def __init__(self, header, n_tx, txs):
+        self.header = types.SimpleNamespace(_serialized_size=lambda: header)
+        self.transactions = _Counted(_spread(txs, n_tx), n_tx)
+
+
+class _FakeTx:
+    def __init__(self, is_segwit, n_in, n_out, ins, outs, wits):
+        self.is_segwit = is_segwit
+        self.vin = _Counted(_spread(ins, n_in, wits), n_in)
+        self.vout = _Counted(_spread(outs, n_out), n_out)
+
+
+class _Counted(list):
+    """a list that reports a length of its own, so that counts beyond memory (CompactSize 2^16, 2^32) are reached"""
+    def __init__(self, items, n):
+        super().__init__(items[:4])
+        self._n = n
+
+    def __len__(self):
+        return self._n
+
+
+def _count(rng):
+    return rng.choice([1, 2, 3, 252, 253, 254, 65535, 65536, 2**32 - 1, 2**32, rng.randrange(1, 5000)])
+
+
+def _gen_block_sizes(rng):
+    return (rng.choice([80, 80, 80, _nat(rng, 20)]), _count(rng), _nat(rng, 40))
+
+
+def _gen_tx_sizes(rng):
+    return (rng.random() < 0.6, rng.random() < 0.6, _count(rng), _count(rng), _nat(rng, 40), _nat(rng, 40), _nat(rng, 40))
+
+
 def _prop(cls, name):
     return getattr(cls, name).fget
 
@@ -204,6 +269,21 @@ def functions():
         FuncSpec(block_mod, "Block.weight", "int", params=[], lean="block_weight",
                  subst={"self.stripped_size": ("stripped", "int"), "self.size": ("total", "int")},
                  call=lambda s, t: _prop(block_mod.Block, "weight")(_Sized(s, t)), gen=_gen_sizes),
+        # the sums themselves: a size is the header / the fixed fields, the CompactSize of each count and the sizes
+        # of the items (the items' own sizes are the integer parameters; var_int._size is Generated.VarInt.size)
+        FuncSpec(block_mod, "Block._serialized_size", "int", params=[], lean="block_serialized_size",
+                 subst={"self.header._serialized_size()": ("header", "int"),
+                        "len(self.transactions)": ("n_tx", "int"),
+                        "sum((t._serialized_size(include_witness) for t in self.transactions))": ("txs", "int")},
+                 call=lambda h, n, t: block_mod.Block._serialized_size(_FakeBlock(h, n, t), True), gen=_gen_block_sizes),
+        FuncSpec(tx_mod, "Tx._serialized_size", "int", params=[("include_witness", "bool")], lean="tx_serialized_size",
+                 subst={"self.is_segwit": ("is_segwit", "bool"),
+                        "len(self.vin)": ("n_in", "int"), "len(self.vout)": ("n_out", "int"),
+                        "sum((tx_in._serialized_size() for tx_in in self.vin))": ("ins", "int"),
+                        "sum((tx_out._serialized_size() for tx_out in self.vout))": ("outs", "int"),
+                        "sum((tx_in.script_witness._serialized_size() for tx_in in self.vin))": ("wits", "int")},
+                 call=lambda iw, sw, ni, no, i, o, w_: tx_mod.Tx._serialized_size(_FakeTx(sw, ni, no, i, o, w_), iw),
+                 gen=_gen_tx_sizes),
         FuncSpec(block_mod, "Block.vsize", "int", params=[], lean="block_vsize", subst=w,
                  call=lambda x: _prop(block_mod.Block, "vsize")(types.SimpleNamespace(weight=x)), gen=_gen_weight),
         FuncSpec(psbt_size, "_taproot_sig_size", "int", params=[],
